@@ -46,7 +46,7 @@ def body_of(func):
 
 class AStarTranslator(KernelTranslator):
     """KernelTranslator plus
-       * calls of module-level functions whose body is one `return <expr>` are inlined (arguments substituted);
+       * calls of straight-line module-level functions (`v = e` ... `return e`) are inlined (arguments substituted);
        * calls of a boolean helper of the shape  `if c: return True` ... `for i in vec: if a == i: return True` ...
          `return False`  are inlined as a condition;
        * `A[r, c]` / `A[r][c]` where (r, c) is a known cell -> the scalar variable "A@<tag>";
@@ -61,6 +61,7 @@ class AStarTranslator(KernelTranslator):
         self.rename = dict(rename or {})
         self.depth = 0
         self.used = []
+        self.raw_cells = []
 
     # -- helpers
     def cell_var(self, n):
@@ -75,20 +76,29 @@ class AStarTranslator(KernelTranslator):
         else:
             return None
         if isinstance(r, ast.Name) and isinstance(c, ast.Name) and (r.id, c.id) in self.cells:
-            v = f"{arr}@{self.cells[(r.id, c.id)]}"
+            self.raw_cells.append((arr, self.cells[(r.id, c.id)]))
+            v = f"{self.rename.get(arr, arr)}@{self.cells[(r.id, c.id)]}"
             if v not in self.used:
                 self.used.append(v)
             return v
         raise Untranslatable(f"array index {ast.unparse(n)}")
 
     def one_expression_function(self, name, call):
+        """the expression a call of a straight-line module function stands for: `v = e` statements followed by
+        `return e`, parameters replaced by the arguments and locals by their definitions"""
         f = find_func(self.mod, name)
         if f is None or call.keywords or len(call.args) != len(f.args.args):
             return None
         body = body_of(f)
-        if len(body) == 1 and isinstance(body[0], ast.Return) and body[0].value is not None:
-            return Subst(dict(zip([a.arg for a in f.args.args], call.args))).visit(copy.deepcopy(body[0].value))
-        return None
+        if not body or not isinstance(body[-1], ast.Return) or body[-1].value is None:
+            return None
+        env = dict(zip([a.arg for a in f.args.args], call.args))
+        for st in body[:-1]:
+            if isinstance(st, ast.Assign) and len(st.targets) == 1 and isinstance(st.targets[0], ast.Name):
+                env[st.targets[0].id] = Subst(env).visit(copy.deepcopy(st.value))
+            else:
+                return None
+        return Subst(env).visit(copy.deepcopy(body[-1].value))
 
     # -- expressions
     def expr(self, n):
@@ -114,7 +124,7 @@ class AStarTranslator(KernelTranslator):
             if isinstance(n.func, ast.Name) and find_func(self.mod, name) is not None:
                 sub = self.one_expression_function(name, n)
                 if sub is None:
-                    raise Untranslatable(f"call of {name}: not a one-expression function")
+                    raise Untranslatable(f"call of {name}: not a straight-line function")
                 if self.depth > 8:
                     raise Untranslatable(f"call of {name}: nesting too deep")
                 self.depth += 1
@@ -325,12 +335,117 @@ def neighbor_tables(mod, roles):
     return table(yes), table(no), k
 
 
+def min_cost_roles(mod):
+    """(index of the cost array, index of the open-flag array) among the parameters of `_min_cost_pixel_id`:
+    the loop tests `<flag>[i, j] and <cost>[i, j] < <running minimum>`"""
+    f = find_func(mod, "_min_cost_pixel_id")
+    if f is None:
+        raise Untranslatable("_min_cost_pixel_id not found")
+    params = [a.arg for a in f.args.args]
+    for n in ast.walk(f):
+        if isinstance(n, ast.If) and isinstance(n.test, ast.BoolOp) and isinstance(n.test.op, ast.And) and len(n.test.values) == 2:
+            flag = cost = None
+            for v in n.test.values:
+                if isinstance(v, ast.Subscript) and isinstance(v.value, ast.Name):
+                    flag = v.value.id
+                elif isinstance(v, ast.Compare) and isinstance(v.left, ast.Subscript) and isinstance(v.left.value, ast.Name):
+                    cost = v.left.value.id
+            if flag in params and cost in params:
+                return params.index(cost), params.index(flag)
+    raise Untranslatable("_min_cost_pixel_id: `is_open[i, j] and cost[i, j] < min_cost` not found")
+
+
+def array_roles(mod, roles):
+    """local array names of `_a_star_search` -> canonical names, by the part they play:
+         f, open      the arrays handed to `_min_cost_pixel_id` (cost, open flags)
+         g            the array read at the popped cell when the new distance is formed
+         par_y, par_x the arrays that receive the popped cell's row / column at the neighbour
+         data         the array whose neighbour value goes to `_is_not_crossable`
+         closed       the remaining array whose neighbour entry is tested
+       and scalars: u_y u_x (popped cell), v_y v_x (neighbour), off_y off_x, rows cols, goal_y goal_x"""
+    f, loop, zl = roles["func"], roles["loop"], roles["zip"]
+    ren = {roles["u"][0]: "u_y", roles["u"][1]: "u_x", roles["v"][0]: "v_y", roles["v"][1]: "v_x",
+           roles["off"][0]: "off_y", roles["off"][1]: "off_x", roles["rows"]: "rows", roles["cols"]: "cols"}
+    pop = next(s for s in loop.body if isinstance(s, ast.Assign) and isinstance(s.value, ast.Call)
+               and call_name(s.value.func) == "_min_cost_pixel_id")
+    ci, fi = min_cost_roles(mod)
+    args = pop.value.args
+    if len(args) <= max(ci, fi) or not all(isinstance(a, ast.Name) for a in args):
+        raise Untranslatable("_min_cost_pixel_id call")
+    ren[args[ci].id] = "f"
+    ren[args[fi].id] = "open"
+    # goal: `(py, px) == (goal_py, goal_px)`
+    for n in ast.walk(loop):
+        if isinstance(n, ast.Compare) and len(n.ops) == 1 and isinstance(n.ops[0], ast.Eq):
+            a, b = tuple_names(n.left), tuple_names(n.comparators[0])
+            if a and b and len(a) == 2 and len(b) == 2:
+                if tuple(a) == roles["u"]:
+                    ren[b[0]], ren[b[1]] = "goal_y", "goal_x"
+                elif tuple(b) == roles["u"]:
+                    ren[a[0]], ren[a[1]] = "goal_y", "goal_x"
+    if "goal_y" not in ren.values():
+        raise Untranslatable("`(py, px) == (goal_py, goal_px)` not found")
+    probe = AStarTranslator(mod, f, cells={roles["u"]: "u", roles["v"]: "v"})
+    at_u, at_v = set(), set()
+    for st in ast.walk(zl):
+        if isinstance(st, ast.Subscript):
+            try:
+                before = len(probe.raw_cells)
+                probe.cell_var(st)
+                for arr, tag in probe.raw_cells[before:]:
+                    (at_u if tag == "u" else at_v).add(arr)
+            except Untranslatable:
+                pass
+        if isinstance(st, ast.Assign) and len(st.targets) == 1 and isinstance(st.targets[0], ast.Subscript) \
+                and isinstance(st.value, ast.Name) and st.value.id in roles["u"]:
+            try:
+                before = len(probe.raw_cells)
+                probe.cell_var(st.targets[0])
+                arr, tag = probe.raw_cells[before]
+                if tag == "v":
+                    ren[arr] = "par_y" if st.value.id == roles["u"][0] else "par_x"
+            except Untranslatable:
+                pass
+        if isinstance(st, ast.Call) and isinstance(st.func, ast.Name) and st.func.id == "_is_not_crossable" and st.args:
+            a0 = st.args[0]
+            base = a0.value if isinstance(a0, ast.Subscript) else None
+            while isinstance(base, ast.Subscript):
+                base = base.value
+            if isinstance(base, ast.Name):
+                ren[base.id] = "data"
+            if len(st.args) > 1 and isinstance(st.args[1], ast.Name):
+                ren[st.args[1].id] = "barriers"
+    if len(at_u) != 1:
+        raise Untranslatable(f"arrays read at the popped cell: {sorted(at_u)}")
+    ren[at_u.pop()] = "g"
+    rest = [a for a in sorted(at_v) if a not in ren]
+    if len(rest) != 1:
+        raise Untranslatable(f"closed-flag array not identified: {rest}")
+    ren[rest[0]] = "closed"
+    need = {"f", "open", "g", "par_y", "par_x", "data", "closed", "barriers"}
+    if not need <= set(ren.values()):
+        raise Untranslatable(f"roles not found: {sorted(need - set(ren.values()))}")
+    return ren
+
+
+class VecRename(AStarTranslator):
+    """vector names are renamed too (the barrier list)"""
+
+    def bool_helper(self, name, call):
+        c = super().bool_helper(name, call)
+        for k, v in self.rename.items():
+            c = c.replace(f"(C.anyEq {lean_str(k)} ", f"(C.anyEq {lean_str(v)} ")
+        self.vectors = [self.rename.get(v, v) for v in self.vectors]
+        return c
+
+
 def relax_body(mod, roles):
     f = roles["func"]
+    ren = array_roles(mod, roles)
     scalars = list(roles["u"]) + list(roles["loopvars"]) + [roles["rows"], roles["cols"]]
-    tr = AStarTranslator(mod, f, cells={roles["u"]: "u", roles["v"]: "v"}, scalars=scalars)
+    tr = VecRename(mod, f, cells={roles["u"]: "u", roles["v"]: "v"}, scalars=scalars, rename=ren)
     body = tr.block(roles["zip"].body)
-    return body, tr
+    return body, tr, ren
 
 
 def min_cost(mod):
@@ -362,6 +477,12 @@ def min_cost(mod):
     pre = body[:body.index(outer)]
     pre = [s for s in pre if s is not shape]
     ren = {res_row: "best_y", res_col: "best_x", ov: "i", iv: "j", rows: "rows", cols: "cols"}
+    ci, fi = min_cost_roles(mod)
+    params = [a.arg for a in f.args.args]
+    ren[params[ci]], ren[params[fi]] = "f", "open"
+    for st in pre:
+        if isinstance(st, ast.Assign) and isinstance(st.targets[0], ast.Name) and st.targets[0].id not in ren:
+            ren[st.targets[0].id] = "min_cost"
     tr = AStarTranslator(mod, f, cells={(ov, iv): "c"}, scalars=[rows, cols, ov, iv], rename=ren)
     init = tr.block(pre)
     loop_body = tr.block(inner.body)
@@ -441,7 +562,9 @@ def snap_rule(mod):
     res_row, res_col = tuple_names(ret.value)
     first = body[0]
     ren = {p_row: "p_y", p_col: "p_x", ov: "y", iv: "x", res_row: "near_y", res_col: "near_x"}
-    tr = AStarTranslator(mod, f, cells={(p_row, p_col): "p", (ov, iv): "c"}, scalars=[rows, cols, ov, iv], rename=ren)
+    if len(params) >= 4:
+        ren[params[2]], ren[params[3]] = "data", "barriers"
+    tr = VecRename(mod, f, cells={(p_row, p_col): "p", (ov, iv): "c"}, scalars=[rows, cols, ov, iv], rename=ren)
     if not (isinstance(first, ast.If) and not first.orelse and len(first.body) == 1 and isinstance(first.body[0], ast.Return)
             and tuple_names(first.body[0].value) == [p_row, p_col]):
         raise Untranslatable("_find_nearest_pixel: `if crossable: return py, px` not first")
@@ -510,14 +633,6 @@ def generate(repo):
         rep["roles"] = {k: v for k, v in roles.items() if k not in ("func", "loop", "zip")}
     except Untranslatable as ex:
         rep["roles"] = dict(ok=False, why=str(ex))
-    names = dict(uRow="?", uCol="?", vRow="?", vCol="?", offRow="?", offCol="?", rows="?", cols="?")
-    if roles:
-        names = dict(uRow=roles["u"][0], uCol=roles["u"][1], vRow=roles["v"][0], vCol=roles["v"][1],
-                     offRow=roles["off"][0], offCol=roles["off"][1], rows=roles["rows"], cols=roles["cols"])
-    out.append("/-- names in `_a_star_search`: popped cell `u`, neighbour `v = u + off`, raster shape -/")
-    for k_, v_ in names.items():
-        out.append(f"def {k_} : String := {lean_str(v_)}")
-    out.append("")
     try:
         if not roles:
             raise Untranslatable(rep["roles"]["why"])
@@ -541,27 +656,63 @@ def generate(repo):
         if f is None:
             raise Untranslatable("_is_not_crossable not found")
         params = [a.arg for a in f.args.args]
-        tr = AStarTranslator(mod, f)
+        tr = VecRename(mod, f, rename={params[0]: "value", params[1]: "barriers"})
         call = ast.Call(func=ast.Name(id="_is_not_crossable", ctx=ast.Load()),
                         args=[ast.Name(id=p, ctx=ast.Load()) for p in params], keywords=[])
         c = tr.bool_helper("_is_not_crossable", call)
         out += [f"/-- `_is_not_crossable({', '.join(params)})` as a condition (scalar `{params[0]}`, vector `{params[1]}`) -/",
-                f"def notCrossable : C :=\n {c}", f"def notCrossableValue : String := {lean_str(params[0])}",
-                f"def notCrossableList : String := {lean_str(params[1])}", ""]
+                f"def notCrossable : C :=\n {c}", ""]
         rep["notCrossable"] = dict(ok=True)
     except (Untranslatable, IndexError) as ex:
-        out += ["def notCrossable : C := C.cmp .lt E.nan E.nan", 'def notCrossableValue : String := "?"',
-                'def notCrossableList : String := "?"', ""]
+        out += ["def notCrossable : C := C.cmp .lt E.nan E.nan", ""]
         rep["notCrossable"] = dict(ok=False, why=str(ex))
+    # what `a_star_search` does to the caller's list before the kernels see it
+    casts = ["?"]
+    try:
+        pub = find_func(mod, "a_star_search")
+        if pub is None:
+            raise Untranslatable("a_star_search not found")
+        bname = None
+        for n in ast.walk(pub):
+            if isinstance(n, ast.Call) and call_name(n.func) == "_a_star_search" and roles:
+                params = [a.arg for a in roles["func"].args.args]
+                for n2 in ast.walk(roles["zip"]):
+                    if isinstance(n2, ast.Call) and call_name(n2.func) == "_is_not_crossable" and len(n2.args) > 1 \
+                            and isinstance(n2.args[1], ast.Name) and n2.args[1].id in params:
+                        pos = params.index(n2.args[1].id)
+                        if pos < len(n.args) and isinstance(n.args[pos], ast.Name):
+                            bname = n.args[pos].id
+        if bname is None:
+            raise Untranslatable("barrier list not traced into _a_star_search")
+        casts = []
+        for n in ast.walk(pub):
+            if isinstance(n, ast.Assign) and any(isinstance(t, ast.Name) and t.id == bname for t in n.targets):
+                for c in ast.walk(n.value):
+                    if isinstance(c, ast.Call):
+                        nm = call_name(c.func)
+                        if nm in ("astype", "view", "round", "rint", "floor", "trunc"):
+                            casts.append(ast.unparse(c)[:80])
+                        elif nm not in ("array", "asarray", "list", "tuple", "ravel", "flatten", "atleast_1d"):
+                            casts.append(ast.unparse(c)[:80])
+                        for kw in c.keywords:
+                            if kw.arg == "dtype":
+                                casts.append("dtype=" + ast.unparse(kw.value))
+        rep["barrierCasts"] = dict(ok=True, name=bname, casts=casts)
+    except Untranslatable as ex:
+        rep["barrierCasts"] = dict(ok=False, why=str(ex))
+    out += ["/-- conversions `a_star_search` applies to the caller's barrier list beyond `np.array(...)` (none: the kernels compare",
+            "    each cell with the listed numbers themselves, under the platform's promotion rules) -/",
+            f"def barrierCasts : List String := [{', '.join(lean_str(c) for c in casts)}]", ""]
     # relaxation
     try:
         if not roles:
             raise Untranslatable(rep["roles"]["why"])
-        body, tr = relax_body(mod, roles)
+        body, tr, ren = relax_body(mod, roles)
         out += ["/-- the body of the neighbour loop of `_a_star_search`; `A@u` = `A[py, px]`, `A@v` = `A[neighbor_y, neighbor_x]`,",
-                "    `S.cont` = `continue`; calls of `_distance` / `_heuristic` / `_is_not_crossable` inlined -/",
+                "    `S.cont` = `continue`; calls of `_distance` / `_heuristic` / `_is_not_crossable` inlined; names by role:",
+                "    " + ", ".join(f"{k} -> {v}" for k, v in sorted(ren.items())) + " -/",
                 f"def relaxBody : S :=\n {body}", ""]
-        rep["relaxBody"] = dict(ok=True, cell_vars=tr.used, vectors=tr.vectors)
+        rep["relaxBody"] = dict(ok=True, cell_vars=tr.used, vectors=tr.vectors, names=ren)
     except Untranslatable as ex:
         out += [f"def relaxBody : S := S.fail {lean_str('untranslatable: ' + str(ex))}", ""]
         rep["relaxBody"] = dict(ok=False, why=str(ex))
